@@ -246,6 +246,38 @@ def splicable(h):
     return True
 
 
+def import_helper_globals(repo, h, f, rep):
+    """A helper of another module is spliced into f: the module-level names its body reads (classes, functions, constants, imports of
+    the helper's module) must mean the same thing in f's module.  Names f's module does not know are recorded as imported from the
+    helper's module; a name that means something else there refuses the splice (returns False)."""
+    if h.mod == f.mod:
+        return True
+    fa = f.node.args
+    local = _assigned_names(f.node) | {p_.arg for p_ in fa.posonlyargs + fa.args + fa.kwonlyargs} | {"self", "cls"}
+    for st in rep:
+        local |= _assigned_names(st)
+    add = {}
+    for st in rep:
+        for x in ast.walk(st):
+            if not (isinstance(x, ast.Name) and isinstance(x.ctx, ast.Load)) or x.id in local:
+                continue
+            th = repo.chase(h.mod, x.id)
+            if th is None and x.id in repo.consts.get(h.mod, {}):
+                th = f"{h.mod}.{x.id}"
+            if th is None:
+                continue                                  # a builtin, or a name the helper's module does not define either
+            tf = repo.chase(f.mod, x.id)
+            if tf is None and x.id in repo.consts.get(f.mod, {}):
+                tf = f"{f.mod}.{x.id}"
+            if tf is None:
+                add[x.id] = th
+            elif tf != th:
+                return False
+    for k, v in add.items():
+        repo.imports[f.mod][k] = v
+    return True
+
+
 def specialise_varargs(repo, h, skip, call, bind_args, counter, caller=None):
     """helper(x, *names) called with constant extra arguments: (a copy of the helper without the star parameter, in which `names` is
     the tuple display of those constants and loops over it are unrolled; the binding of the remaining parameters) - or None"""
@@ -696,7 +728,7 @@ def _hoist(st, repo, f, new_funcs, resolve_helper, bind_args, caller_names, coun
         tmp = f"{h.node.name.lstrip('_')}__{tag}"
         tgt = [ast.Name(id=tmp, ctx=ast.Store())]
         rep = splice(h, b, "assign", tgt, caller_names, tag, nonnull=nonnull_names(repo, f))
-        if rep is None:
+        if rep is None or not import_helper_globals(repo, h, f, rep):
             continue
 
         class Sub(ast.NodeTransformer):
@@ -1183,6 +1215,8 @@ def inline_new_helpers(repo, new_funcs, resolve_helper, bind_args, max_rounds=2)
                                 inside = {id(x) for x in ast.walk(st)}
                                 outside = {nm for nm, i_ in outside if i_ not in inside}
                                 rep = splice_generator_loop(h, b, st, caller_names, f"g{counter[0]}", nonnull=nonnull_names(repo, f), names_outside_loop=outside)
+                                if rep is not None and not import_helper_globals(repo, h, f, rep):
+                                    rep = None
                                 if rep is not None:
                                     for x in rep:
                                         caller_names.update(_used_names(x))
@@ -1269,6 +1303,8 @@ def inline_new_helpers(repo, new_funcs, resolve_helper, bind_args, max_rounds=2)
                             if b is not None:
                                 counter[0] += 1
                                 rep = splice(h, b, context, target, caller_names, f"h{counter[0]}", nonnull=nonnull_names(repo, f))
+                                if rep is not None and not import_helper_globals(repo, h, f, rep):
+                                    rep = None
                                 if rep is not None:
                                     for x in rep:
                                         caller_names.update(_used_names(x))
